@@ -163,6 +163,7 @@ class Summary:
         self.W = set()        # labels written
         self.ret_id = set()
         self.ret_c = set()
+        self.ret_typ = None     # static type of every returned value when they all agree
         self.stores = {}      # label -> labels stored into its contents
 
 
@@ -190,6 +191,7 @@ class Fn:
         self.typ = {}           # def idx -> typ
         self.dfuncs = {}        # def idx -> set of function keys
         self.nested = {}
+        self.ret_typs = set()   # static types of the returned values (None = unknown)
         self.loops = []
         self.tries = []
         self.seeds = {}         # label -> def idx
@@ -261,6 +263,17 @@ class Fn:
         if nm in self.locals:
             return FRESH                      # local name not yet bound on this path (would raise at run time)
         if self.outer is not None and nm in self.outer.locals:
+            # a sibling nested function that is bound exactly once (by its def) and never re-assigned is the same
+            # function object whenever it is read: resolve it like a call target; any other enclosing variable is
+            # not covered (fail closed)
+            o = self.outer
+            defs = [n for n in ast.walk(o.f) if isinstance(n, ast.FunctionDef) and n is not o.f and n.name == nm]
+            stores = [n for n in ast.walk(o.f) if isinstance(n, ast.Name) and n.id == nm and
+                      isinstance(n.ctx, (ast.Store, ast.Del))]
+            if len(defs) == 1 and not stores and nm not in o.params and defs[0] in o.f.body:
+                key = (o.key[0], o.key[1] + '.' + nm)
+                self.tr.nested.setdefault(key, (o.mod, defs[0], o))
+                return Val(funcs={key})
             self.bad(e, 'nested function %s reads variable %r of the enclosing function' % (self.f.name, nm))
         m = self.mod
         if nm in m.funcs:
@@ -509,6 +522,7 @@ class Fn:
 
     def usercall(self, e, fkeys, args, kws):
         ids, cs = set(), set()
+        rtyps = set()
         for fk in sorted(fkeys):
             callee = self.tr.analyse(fk, self)
             sm = callee.summary
@@ -540,11 +554,13 @@ class Fn:
                     fk[1], ', '.join(sorted('%s%s' % (l[1], '' if l[2] == 'id' else ' (contents)') for l in sm.W)))))
             ids |= vars_of(sm.ret_id)
             cs |= vars_of(sm.ret_c)
+            rtyps.add(getattr(sm, 'ret_typ', None))
             for lab, srcs in sm.stores.items():
                 tv, sv = vars_of({(lab[0], lab[1], 'id')}), vars_of(srcs)
                 if tv and sv:
                     self.stores.add((frozenset(tv), frozenset(sv)))
-        return Val(ids, cs)
+        rt = next(iter(rtyps)) if len(rtyps) == 1 else None
+        return Val(ids, cs, rt if rt != 'none' else None)
 
     # ---- assignment targets
     def assign(self, t, val, env, node, valnode):
@@ -634,6 +650,7 @@ class Fn:
             v = self.expr(s.value, env)
             self.src[2 * self.ret] |= v.ids
             self.src[2 * self.ret + 1] |= v.cs
+            self.ret_typs.add(v.typ if s.value is not None else 'none')
             return None
         if isinstance(s, ast.Raise):
             self.expr(s.exc, env)
@@ -800,6 +817,7 @@ class Fn:
                 sm.W |= self.labels[v]
         sm.ret_id = set(self.labels[2 * self.ret])
         sm.ret_c = set(self.labels[2 * self.ret + 1])
+        sm.ret_typ = next(iter(self.ret_typs)) if len(self.ret_typs) == 1 else None
         for v, l in self.seed_vars().items():
             if l[2] == 'c':
                 extra = self.labels[v] - {l}
